@@ -1,8 +1,606 @@
 package main
 
-// effects.go — per-function effect summary (writes, retained parameters,
-// returned fields). Filled in with the C11/C17 machinery.
+// effects.go — a per-function summary of memory effects, from the source:
+//
+//   * package-level variables (any `var` at package scope) and functions that
+//     assign to one;
+//   * for every function: the named types it writes through (a field or element
+//     assignment, ++/--, op=, append-assign, channel send or close whose root
+//     is the receiver, a parameter, or a local of a named struct/pointer type);
+//   * for exported functions and methods: how each returned slice or map was
+//     obtained (fresh local / a field of the receiver or of a parameter / a
+//     parameter itself / unknown), and whether a slice or map parameter is
+//     stored without copying (into a composite literal, a field, or returned);
+//   * go statements.
+//
+// The analysis is syntactic over go/ast with go/types for identifier
+// resolution. It is deliberately conservative: anything it does not recognise
+// as fresh is "unknown", which fails the obligation in EffectsTie.v.
+
+import (
+	"fmt"
+	"go/ast"
+	"go/token"
+	"go/types"
+	"sort"
+	"strings"
+)
+
+type fnEffect struct {
+	pkg, name    string
+	exported     bool
+	writesGlobal []string
+	mutates      []string // named types written through
+	returns      []string // classification of returned slices/maps
+	storesParam  []string
+	goStmts      int
+}
+
+func isSliceOrMap(t types.Type) bool {
+	if t == nil {
+		return false
+	}
+	switch t.Underlying().(type) {
+	case *types.Slice, *types.Map:
+		return true
+	}
+	return false
+}
+
+func namedOf(t types.Type) string {
+	for {
+		switch x := t.(type) {
+		case *types.Pointer:
+			t = x.Elem()
+			continue
+		case *types.Named:
+			return x.Obj().Name()
+		}
+		return ""
+	}
+}
+
+type fnAnalysis struct {
+	p      *pkgInfo
+	fd     *ast.FuncDecl
+	params map[types.Object]bool
+	recv   types.Object
+	fresh  map[types.Object]bool // locals known to hold freshly allocated slices/maps
+	eff    *fnEffect
+	fns    map[string]bool // names of package functions known to return fresh slices/maps
+}
+
+func (a *fnAnalysis) obj(id *ast.Ident) types.Object {
+	if o := a.p.info.Uses[id]; o != nil {
+		return o
+	}
+	return a.p.info.Defs[id]
+}
+
+// root identifier of an l-value / expression like x.f[i].g
+func rootIdent(e ast.Expr) *ast.Ident {
+	for {
+		switch x := e.(type) {
+		case *ast.Ident:
+			return x
+		case *ast.SelectorExpr:
+			e = x.X
+		case *ast.IndexExpr:
+			e = x.X
+		case *ast.SliceExpr:
+			e = x.X
+		case *ast.StarExpr:
+			e = x.X
+		case *ast.ParenExpr:
+			e = x.X
+		default:
+			return nil
+		}
+	}
+}
+
+// classify how a slice/map valued expression was obtained
+func (a *fnAnalysis) classify(e ast.Expr) string {
+	switch x := e.(type) {
+	case *ast.ParenExpr:
+		return a.classify(x.X)
+	case *ast.CompositeLit:
+		return "fresh"
+	case *ast.CallExpr:
+		if id, ok := x.Fun.(*ast.Ident); ok {
+			switch id.Name {
+			case "make":
+				return "fresh"
+			case "append":
+				if len(x.Args) > 0 {
+					return a.classify(x.Args[0])
+				}
+			}
+			if a.fns[id.Name] {
+				return "fresh"
+			}
+		}
+		if sel, ok := x.Fun.(*ast.SelectorExpr); ok {
+			// conversions and well-known allocating library calls
+			if pk, ok := sel.X.(*ast.Ident); ok {
+				switch pk.Name + "." + sel.Sel.Name {
+				case "strings.Split", "strings.Fields", "bytes.Repeat", "hex.DecodeString":
+					return "fresh"
+				}
+			}
+			if a.fns["."+sel.Sel.Name] {
+				return "fresh" // a method of this package known to return fresh storage
+			}
+		}
+		if tv, ok := a.p.info.Types[x.Fun]; ok && tv.IsType() {
+			return "fresh" // []byte(s)
+		}
+		return "unknown"
+	case *ast.Ident:
+		if x.Name == "nil" {
+			return "fresh"
+		}
+		o := a.obj(x)
+		if o == nil {
+			return "unknown"
+		}
+		if a.params[o] {
+			return "param:" + x.Name
+		}
+		if a.fresh[o] {
+			return "fresh"
+		}
+		if o.Parent() == o.Pkg().Scope() {
+			return "global:" + x.Name
+		}
+		return "unknown"
+	case *ast.SelectorExpr:
+		if r := rootIdent(x); r != nil {
+			o := a.obj(r)
+			if o != nil && (o == a.recv || a.params[o]) {
+				return "field:" + r.Name + "." + x.Sel.Name
+			}
+			if o != nil && o.Pkg() != nil && o.Parent() == o.Pkg().Scope() {
+				return "global:" + r.Name
+			}
+			if o != nil {
+				// a field of an object held in a local variable (allocated in this call tree)
+				return "local-field:" + namedOf(o.Type()) + "." + x.Sel.Name
+			}
+		}
+		return "field:?." + x.Sel.Name
+	case *ast.SliceExpr:
+		return a.classify(x.X)
+	case *ast.IndexExpr:
+		return "unknown"
+	}
+	return "unknown"
+}
+
+func (a *fnAnalysis) noteWrite(lhs ast.Expr) {
+	r := rootIdent(lhs)
+	if r == nil {
+		return
+	}
+	if _, plain := lhs.(*ast.Ident); plain {
+		// assignment to the variable itself
+		o := a.obj(r)
+		if o != nil && o.Pkg() != nil && o.Parent() == o.Pkg().Scope() {
+			if _, isVar := o.(*types.Var); isVar {
+				a.eff.writesGlobal = append(a.eff.writesGlobal, r.Name)
+			}
+		}
+		return
+	}
+	o := a.obj(r)
+	if o == nil {
+		return
+	}
+	if o.Pkg() != nil && o.Parent() == o.Pkg().Scope() {
+		a.eff.writesGlobal = append(a.eff.writesGlobal, r.Name)
+		return
+	}
+	// a write through r: which named type is being mutated?
+	if a.fresh[o] {
+		return // element of a fresh local slice/map
+	}
+	tn := namedOf(o.Type())
+	if tn == "" {
+		if isSliceOrMap(o.Type()) {
+			if a.params[o] {
+				tn = "param-slice:" + r.Name
+			} else {
+				return // local slice/map not known fresh: still local storage unless it aliases; see classify
+			}
+		} else {
+			return
+		}
+	}
+	a.eff.mutates = append(a.eff.mutates, tn)
+}
+
+func uniq(s []string) []string {
+	sort.Strings(s)
+	var r []string
+	for i, x := range s {
+		if i == 0 || x != s[i-1] {
+			r = append(r, x)
+		}
+	}
+	return r
+}
+
+func analyseFunc(p *pkgInfo, pkgName string, fd *ast.FuncDecl, fresh map[string]bool) *fnEffect {
+	name := fd.Name.Name
+	exported := fd.Name.IsExported()
+	a := &fnAnalysis{p: p, fd: fd, params: map[types.Object]bool{}, fresh: map[types.Object]bool{}, fns: fresh}
+	if fd.Recv != nil && len(fd.Recv.List) == 1 {
+		t := fd.Recv.List[0].Type
+		if st, ok := t.(*ast.StarExpr); ok {
+			t = st.X
+		}
+		if id, ok := t.(*ast.Ident); ok {
+			name = id.Name + "." + name
+			exported = exported && id.IsExported()
+		}
+		if len(fd.Recv.List[0].Names) == 1 {
+			a.recv = p.info.Defs[fd.Recv.List[0].Names[0]]
+		}
+	}
+	a.eff = &fnEffect{pkg: pkgName, name: name, exported: exported}
+	for _, f := range fd.Type.Params.List {
+		for _, n := range f.Names {
+			if o := p.info.Defs[n]; o != nil {
+				a.params[o] = true
+			}
+		}
+	}
+	if fd.Body == nil {
+		return a.eff
+	}
+	// pass 1: locals that hold fresh slices/maps (every assignment to them is fresh)
+	cand := map[types.Object]bool{}
+	bad := map[types.Object]bool{}
+	ast.Inspect(fd.Body, func(n ast.Node) bool {
+		switch x := n.(type) {
+		case *ast.AssignStmt:
+			if len(x.Lhs) == len(x.Rhs) {
+				for i, l := range x.Lhs {
+					id, ok := l.(*ast.Ident)
+					if !ok {
+						continue
+					}
+					o := a.obj(id)
+					if o == nil || a.params[o] || !isSliceOrMap(o.Type()) {
+						continue
+					}
+					// judged after the fixpoint below
+					_ = i
+					cand[o] = true
+				}
+			}
+		case *ast.ValueSpec:
+			for _, id := range x.Names {
+				if o := p.info.Defs[id]; o != nil && isSliceOrMap(o.Type()) {
+					cand[o] = true
+				}
+			}
+		}
+		return true
+	})
+	for changed := true; changed; {
+		changed = false
+		for o := range cand {
+			if !bad[o] {
+				a.fresh[o] = true
+			}
+		}
+		ast.Inspect(fd.Body, func(n ast.Node) bool {
+			switch x := n.(type) {
+			case *ast.AssignStmt:
+				if len(x.Lhs) != len(x.Rhs) {
+					// multi-value call: results of unknown provenance
+					for _, l := range x.Lhs {
+						if id, ok := l.(*ast.Ident); ok {
+							if o := a.obj(id); o != nil && cand[o] && !bad[o] {
+								if call, ok := x.Rhs[0].(*ast.CallExpr); ok {
+									if sel, ok := call.Fun.(*ast.SelectorExpr); ok && a.fns["."+sel.Sel.Name] {
+										continue
+									}
+									if fid, ok := call.Fun.(*ast.Ident); ok && a.fns[fid.Name] {
+										continue
+									}
+								}
+								bad[o] = true
+								changed = true
+							}
+						}
+					}
+					return true
+				}
+				for i, l := range x.Lhs {
+					id, ok := l.(*ast.Ident)
+					if !ok {
+						continue
+					}
+					o := a.obj(id)
+					if o == nil || !cand[o] || bad[o] {
+						continue
+					}
+					if c := a.classify(x.Rhs[i]); c != "fresh" {
+						bad[o] = true
+						delete(a.fresh, o)
+						changed = true
+					}
+				}
+			case *ast.ValueSpec:
+				for i, id := range x.Names {
+					o := p.info.Defs[id]
+					if o == nil || !cand[o] || bad[o] || i >= len(x.Values) {
+						continue
+					}
+					if c := a.classify(x.Values[i]); c != "fresh" {
+						bad[o] = true
+						delete(a.fresh, o)
+						changed = true
+					}
+				}
+			case *ast.RangeStmt:
+				// range variables are copies of elements; slices of slices would alias, none here
+			}
+			return true
+		})
+		for o := range bad {
+			delete(a.fresh, o)
+		}
+	}
+	// pass 2: effects
+	ast.Inspect(fd.Body, func(n ast.Node) bool {
+		switch x := n.(type) {
+		case *ast.AssignStmt:
+			for _, l := range x.Lhs {
+				if x.Tok == token.DEFINE {
+					continue
+				}
+				a.noteWrite(l)
+			}
+			// stores of slice/map parameters into fields or composite literals
+			for i, r := range x.Rhs {
+				if i < len(x.Lhs) {
+					if _, plain := x.Lhs[i].(*ast.Ident); !plain {
+						if c := a.classify(r); strings.HasPrefix(c, "param:") && isSliceOrMap(a.p.info.Types[r].Type) {
+							a.eff.storesParam = append(a.eff.storesParam, c)
+						}
+					}
+				}
+			}
+		case *ast.IncDecStmt:
+			a.noteWrite(x.X)
+		case *ast.SendStmt:
+			a.noteWrite(&ast.IndexExpr{X: x.Chan}) // a send mutates the channel's owner
+		case *ast.GoStmt:
+			a.eff.goStmts++
+		case *ast.CallExpr:
+			if id, ok := x.Fun.(*ast.Ident); ok && (id.Name == "close" || id.Name == "copy" || id.Name == "delete") && len(x.Args) > 0 {
+				if id.Name == "copy" {
+					// copy(dst, src) writes the elements of dst
+					if c := a.classify(x.Args[0]); c != "fresh" {
+						a.noteWrite(&ast.IndexExpr{X: x.Args[0]})
+						if strings.HasPrefix(c, "field:") {
+							a.eff.mutates = append(a.eff.mutates, "shared-slice:"+c)
+						}
+					}
+				} else {
+					a.noteWrite(&ast.IndexExpr{X: x.Args[0]})
+				}
+			}
+			// sort.Slice and friends reorder their argument in place
+			if sel, ok := x.Fun.(*ast.SelectorExpr); ok {
+				if pk, ok := sel.X.(*ast.Ident); ok && pk.Name == "sort" && len(x.Args) > 0 {
+					if c := a.classify(x.Args[0]); c != "fresh" {
+						a.eff.mutates = append(a.eff.mutates, "sorted-in-place:"+c)
+					}
+				}
+			}
+		case *ast.CompositeLit:
+			for _, el := range x.Elts {
+				v := el
+				if kv, ok := el.(*ast.KeyValueExpr); ok {
+					v = kv.Value
+				}
+				if tv, ok := a.p.info.Types[v]; ok && isSliceOrMap(tv.Type) {
+					if c := a.classify(v); c != "fresh" {
+						// a struct literal that shares a slice/map it did not allocate
+						if tvl, ok := a.p.info.Types[x]; ok {
+							if _, isStruct := tvl.Type.Underlying().(*types.Struct); isStruct {
+								a.eff.storesParam = append(a.eff.storesParam, "literal-shares:"+c)
+							}
+						}
+					}
+				}
+			}
+		case *ast.ReturnStmt:
+			for _, r := range x.Results {
+				if tv, ok := a.p.info.Types[r]; ok && isSliceOrMap(tv.Type) {
+					a.eff.returns = append(a.eff.returns, a.classify(r))
+				}
+			}
+		}
+		return true
+	})
+	a.eff.writesGlobal = uniq(a.eff.writesGlobal)
+	a.eff.mutates = uniq(a.eff.mutates)
+	a.eff.returns = uniq(a.eff.returns)
+	a.eff.storesParam = uniq(a.eff.storesParam)
+	return a.eff
+}
+
+func coqStrList(xs []string) string {
+	var parts []string
+	for _, x := range xs {
+		parts = append(parts, coqStr(x))
+	}
+	return "[" + strings.Join(parts, "; ") + "]"
+}
 
 func genEffects(pkgs map[string]*pkgInfo) string {
-	return genHeader + "Definition gen_effects_placeholder : nat := 0.\n"
+	var sb strings.Builder
+	sb.WriteString(genHeader)
+	sb.WriteString("Record fn_effect := { fe_pkg : bytes; fe_name : bytes; fe_exported : bool;\n  fe_writes_global : list bytes; fe_mutates : list bytes; fe_returns : list bytes; fe_stores : list bytes; fe_go : nat }.\n\n")
+	names := make([]string, 0, len(pkgs))
+	for n := range pkgs {
+		names = append(names, n)
+	}
+	sort.Strings(names)
+	var rows []string
+	var globals []string
+	for _, pn := range names {
+		p := pkgs[pn]
+		// package-level variables
+		for _, f := range p.files {
+			for _, d := range f.Decls {
+				if gd, ok := d.(*ast.GenDecl); ok && gd.Tok == token.VAR {
+					for _, sp := range gd.Specs {
+						for _, id := range sp.(*ast.ValueSpec).Names {
+							globals = append(globals, pn+"."+id.Name)
+						}
+					}
+				}
+			}
+		}
+		// functions that return fresh slices/maps: fixpoint over the package
+		fresh := map[string]bool{}
+		var fds []*ast.FuncDecl
+		for _, f := range p.files {
+			for _, d := range f.Decls {
+				if fd, ok := d.(*ast.FuncDecl); ok {
+					fds = append(fds, fd)
+				}
+			}
+		}
+		for changed := true; changed; {
+			changed = false
+			for _, fd := range fds {
+				key := fd.Name.Name
+				if fd.Recv != nil {
+					key = "." + key
+				}
+				if fresh[key] {
+					continue
+				}
+				// a method name is fresh when, assuming it is, every method of that
+				// name returns only fresh storage (greatest fixed point: a method may
+				// delegate to the same method of another type)
+				fresh[key] = true
+				ok := true
+				any := false
+				for _, other := range fds {
+					same := other == fd || (fd.Recv != nil && other.Recv != nil && other.Name.Name == fd.Name.Name)
+					if !same {
+						continue
+					}
+					e2 := analyseFunc(p, pn, other, fresh)
+					for _, r := range e2.returns {
+						any = true
+						if r != "fresh" {
+							ok = false
+						}
+					}
+				}
+				if ok && any {
+					changed = true
+				} else {
+					delete(fresh, key)
+				}
+			}
+		}
+		for _, fd := range fds {
+			e := analyseFunc(p, pn, fd, fresh)
+			rows = append(rows, fmt.Sprintf("  {| fe_pkg := %s; fe_name := %s; fe_exported := %v;\n     fe_writes_global := %s; fe_mutates := %s; fe_returns := %s; fe_stores := %s; fe_go := %d |}",
+				coqStr(e.pkg), coqStr(e.name), e.exported, coqStrList(e.writesGlobal), coqStrList(e.mutates), coqStrList(e.returns), coqStrList(e.storesParam), e.goStmts))
+		}
+	}
+	fmt.Fprintf(&sb, "Definition gen_package_vars : list bytes := %s.\n\n", coqStrList(globals))
+	fmt.Fprintf(&sb, "Definition gen_exposed_types : list bytes := %s.\n\n", coqStrList(exposedTypes(pkgs)))
+	fmt.Fprintf(&sb, "Definition gen_effects : list fn_effect :=\n [\n%s\n ].\n", strings.Join(rows, ";\n"))
+	return sb.String()
+}
+
+// exposedTypes: the named types of the module reachable from the exported API:
+// parameter and result types of exported functions and methods of exported
+// types, and from there through fields (exported or not), elements and pointers.
+func exposedTypes(pkgs map[string]*pkgInfo) []string {
+	seen := map[string]bool{}
+	var visit func(t types.Type)
+	visit = func(t types.Type) {
+		switch x := t.(type) {
+		case *types.Pointer:
+			visit(x.Elem())
+		case *types.Slice:
+			visit(x.Elem())
+		case *types.Array:
+			visit(x.Elem())
+		case *types.Map:
+			visit(x.Key())
+			visit(x.Elem())
+		case *types.Chan:
+			visit(x.Elem())
+		case *types.Named:
+			if x.Obj().Pkg() == nil || !strings.Contains(x.Obj().Pkg().Path(), "lib-secs2-hsms-go") {
+				return
+			}
+			key := x.Obj().Pkg().Name() + "." + x.Obj().Name()
+			if seen[key] {
+				return
+			}
+			seen[key] = true
+			visit(x.Underlying())
+		case *types.Struct:
+			for i := 0; i < x.NumFields(); i++ {
+				visit(x.Field(i).Type())
+			}
+		case *types.Signature:
+			for i := 0; i < x.Params().Len(); i++ {
+				visit(x.Params().At(i).Type())
+			}
+			for i := 0; i < x.Results().Len(); i++ {
+				visit(x.Results().At(i).Type())
+			}
+		case *types.Interface:
+			for i := 0; i < x.NumMethods(); i++ {
+				visit(x.Method(i).Type())
+			}
+		}
+	}
+	for _, p := range pkgs {
+		if p.pkg == nil {
+			continue
+		}
+		sc := p.pkg.Scope()
+		for _, n := range sc.Names() {
+			o := sc.Lookup(n)
+			if !o.Exported() {
+				continue
+			}
+			switch x := o.(type) {
+			case *types.Func:
+				visit(x.Type())
+			case *types.TypeName:
+				visit(x.Type())
+				if named, ok := x.Type().(*types.Named); ok {
+					for i := 0; i < named.NumMethods(); i++ {
+						if named.Method(i).Exported() {
+							visit(named.Method(i).Type())
+						}
+					}
+				}
+			}
+		}
+	}
+	var out []string
+	for k := range seen {
+		out = append(out, k)
+	}
+	sort.Strings(out)
+	return out
 }
